@@ -34,14 +34,15 @@ textual part (destination types `c8 u8 i8` = `char`, `unsigned char`, `signed ch
 * `otsl T v`              → `output_to_string_locale(v, Lg)` and back through `Lg` (`numpunct` with grouping 3, separator `,`)
 * `efsx T <hex>`          → `extract_from_string_locale<T>(text, Lx)` (`ctype<char>` with `x` as additional white space)
 * `tst N|W <hex> s1,s2,…` → steps on ONE input stream: `g` get, `p` peek, `c` clear, `xc` / `xs` / `xb` / `x<T>`
-                            `io::extract` of a character / word / bool / number, `eHH` `io::expect` of character HH;
+                            `io::extract` of a character / word / bool / number, `eHH` `io::expect` of character HH, `n3` / `n5` `enum_::input`
+                            (the variable afterwards), `v1` / `v2` `>> vector<int,N>` (the elements afterwards);
                             each prints its result and `e<eof>f<fail>`, at the end `|rest=<unread>`
 * `bst s1,s2,…`           → steps on ONE `std::stringstream`: `w.T.E.v` io::write, `r.T.E` io::read, `wc.<hex>` write_chars,
                             `rc.N` read_chars, `p` peek, `c` clear; at the end `|rest=<unread bytes>`
 * `strconv <hex>`         → `from_std_string(_locale)` and `to_std_string(_locale)` of that text
 * `literals`              → `FCPPT_STRING_LITERAL` / `FCPPT_CHAR_LITERAL` for `char` and `wchar_t`
 * `toy D F M C <input>`   → `narrow_locale` (D = `out`, input whex) / `widen_locale` (D = `in`, input hex) with the scripted facet
-                            `Model/C15/Toy.lean`: F = flag bits (1 stash, 2 okFull, 4 okLeft, 8 error/noconv leave to_next alone),
+                            `Model/C15/Toy.lean`: F = flag bits (1 stash, 2 okFull, 4 okLeft, 8 a call without output leaves to_next alone),
                             M = `max_length()`, C = units per call (0 = unlimited)
 * `toys D F M C L`        → digest of the `toy` results for every input over {01,02,03,0f,ee,fd} up to length L
 -/
@@ -108,6 +109,18 @@ def binLine (t : IntTy) (e : Endian) (v : Int) : String :=
   let cc := c >>= fun x => convert native t x e
   s!"w={showE bytesHex w} r={showE (fun p => optInt p.1) r} r2={showE (fun p => optInt p.2) r} s={showE toString s} ss={showE toString ss} c={showE toString c} cc={showE toString cc}"
 
+/-- `long double`: the padding bytes of `swap(v)` / `convert(v)` are indeterminate, only the round trips are printed -/
+def binLine80 (t : IntTy) (e : Endian) (v : Int) : String :=
+  let w := write native t [] v e
+  let r : Except Fault (Option Int × Option Int) := do
+    let out ← w
+    let (a, rest) ← read native t out e
+    let (b, _) ← read native t rest e
+    pure (a, b)
+  let ss := swap native t v >>= swap native t
+  let cc := convert native t v e >>= fun x => convert native t x e
+  s!"w={showE bytesHex w} r={showE (fun p => optInt p.1) r} r2={showE (fun p => optInt p.2) r} ss={showE toString ss} cc={showE toString cc}"
+
 def binsDigest (t : IntTy) (e : Endian) (lo : Int) (n : Nat) : String :=
   let h := (List.range n).foldl (fun h (i : Nat) => fnv h (binLine t e (lo + (i : Int)))) fnvInit
   "D " ++ hex64 h
@@ -131,13 +144,13 @@ def handleBin (toks : List String) : Option String :=
   | ["native"] => some (match native with | .little => "little" | .big => "big")
   | ["bin", ty, e, v] => do
     let t ← parseTy ty; let e ← parseEndian e; let v ← v.toInt?
-    if tyOk ty t v then some (binLine t e v) else none
+    if tyOk ty t v then some (if ty = "f80" then binLine80 t e v else binLine t e v) else none
   | ["bins", ty, e, lo, n] => do
     let t ← parseTy ty; let e ← parseEndian e; let lo ← lo.toInt?; let n ← n.toNat?
-    if n = 0 ∨ ¬ tyOk ty t lo ∨ ¬ tyOk ty t (lo + n - 1) then none else some (binsDigest t e lo n)
+    if n = 0 ∨ ty = "f80" ∨ ¬ tyOk ty t lo ∨ ¬ tyOk ty t (lo + n - 1) then none else some (binsDigest t e lo n)
   | ["seq", ty, e, vs] => do
     let t ← parseTy ty; let e ← parseEndian e; let vs ← parseIntList vs
-    if vs.all (fun v => tyOk ty t v) then some (seqLine t e vs) else none
+    if ty ≠ "f80" ∧ vs.all (fun v => tyOk ty t v) then some (seqLine t e vs) else none
   | ["rd", ty, e, hx] => do
     let t ← parseTy ty; let e ← parseEndian e; let bs ← parseHex hx
     -- reading arbitrary bytes into a `bool` / `long double` is not a value of the type
@@ -268,6 +281,15 @@ def tstStep (wide : Bool) (s : IStream) (step : String) : Option (IStream × Str
     some (s, s!"xc={optInt r}")
   else if step = "xs" then let (s, r) := extractString s; some (s, s!"xs={optWord (if wide then whexOf else hexOf) r}")
   else if step = "xb" then let (s, r) := extractBool s; some (s, s!"xb={optBool r}")
+  else if step = "n3" ∨ step = "n5" then do
+    let names ← enumNames (if step = "n3" then 3 else 5)
+    let (s, r) := (if wide then enumInputW else enumInput) names s
+    -- the variable held enumerator 1 (`b`) resp. 3 (`lead`) before
+    some (s, s!"{step}={r.getD (if step = "n3" then 1 else 3)}")
+  else if step = "v1" ∨ step = "v2" then
+    let n := if step = "v1" then 1 else 2
+    let (s, vs) := vecInput ⟨4, true⟩ n s
+    some (s, s!"{step}={intList (vs ++ List.replicate (n - vs.length) 77)}")
   else if step.startsWith "x" then do
     let t ← numDest (step.drop 1).toString
     let (s, r) := extract (.num t) s
@@ -386,7 +408,7 @@ def bstStep (s : BStream) (step : String) : Option (BStream × String) :=
   match step.splitOn "." with
   | ["w", ty, e, v] => do
     let t ← parseTy ty; let e ← parseEndian e; let v ← v.toInt?
-    if tyOk ty t v then
+    if ty ≠ "f80" ∧ tyOk ty t v then
       match ioWrite native t s v e with
       | .ok s1 => some (s1, "w")
       | .error f => some (s, "fault:" ++ f.name)
